@@ -63,7 +63,7 @@ def main():
         suite = "skipped"
         if not a.skip_suite:
             env = dict(os.environ, PYTHONPATH=f"{wt}/src")
-            suite = sh(f"{PY} -m pytest -q -p no:cacheprovider -x -q 2>&1 | tail -1", cwd=wt, env=env)[1].strip()
+            suite = sh(f"{PY} -m pytest -q -p no:cacheprovider 2>&1 | tail -1", cwd=wt, env=env)[1].strip()
             if not re.search(r"1 failed, 1433 passed", suite):
                 print(f"[{a.nid}] suite changed: {suite}")
                 return 3
